@@ -107,3 +107,21 @@ Definition append_steps (n128 : N) (ents : list sentry) (e : sentry) (f : list N
 Definition set_status (st : status) (e : sentry) : sentry := {| e_st := st; e_id := e_id smoc e; e_moc := e_moc smoc e |}.
 Definition chg_store (pos : nat) (st : status) (ents : list sentry) (f : list N) : list N :=
   write_at (8 + 8 * pos) (le_bytes 8 (raw_meta (set_status st (nth pos ents {| e_st := Valid; e_id := 0; e_moc := (0, []) |})))) f.
+
+(** ---------- a purge: the temporary file is a new moc-set filled by appending the kept entries ----------
+    (Purge::exec: header of the new n128, then append_moc_bytes for every valid / deprecated entry, in order;
+    the rename that follows is atomic) *)
+Fixpoint purge_steps (n128 : N) (done todo : list sentry) (f : list N) : list (list N) :=
+  match todo with
+  | [] => []
+  | e :: t => let fs := append_steps n128 done e f in fs ++ purge_steps n128 (done ++ [e]) t (nth 2 fs [])
+  end.
+Definition kept_of (ents : list sentry) : list sentry := filter (liveb smoc) ents.
+Definition purge_tmp_files (n128 : N) (ents : list sentry) : list (list N) :=
+  purge_steps n128 [] (kept_of ents) (file_bytes n128 []).
+
+Fixpoint purge_views (n128 : N) (done todo : list sentry) : list (N * list sentry) :=
+  match todo with
+  | [] => []
+  | e :: t => [(n128, done); (n128, done); (n128, done ++ [e])] ++ purge_views n128 (done ++ [e]) t
+  end.
